@@ -13,7 +13,7 @@ RULE = ('Hypothesis-generated abstract documents (kv/docgen.py profile "full": 1
         'comments and all-null rows), same columns, non-note cells verbatim, barlines without number, notes/rests with '
         'equal number / dots / grace marks / pitch / accidental, signifier set equal (single notes) or own<=got<=union '
         '(chord members).  A second explored profile puts the separator characters @ and middle-dot inside lyrics and '
-        'comments (finding KF-SEP).  Non-trivial: >=2 spines of different type and >=1 note with an accidental, a grace '
+        'comments (finding KF-SEP); a third adds the multi-character signifier units &( &&( &) &&) Ww.  Non-trivial: >=2 spines of different type and >=1 note with an accidental, a grace '
         'mark or >=2 signifiers.')
 ASSUMPTIONS = ['the abstract cell descriptors of kv/grammar.py are the meaning of the generated text (they are written '
                'before kernpy sees it)', 'atom comparison is order-insensitive inside a note (order is C01\'s business)']
@@ -80,6 +80,8 @@ def run(ctx):
     ctx.run_hypothesis(D.documents(D.profile('full')).map(lambda d: {'doc': d}), check, max_examples=n, label='full')
     ctx.run_hypothesis(D.documents(D.profile('sep')).map(lambda d: {'doc': d}), check, max_examples=max(40, n // 8),
                        salt=1, label='sep')
+    ctx.run_hypothesis(D.documents(D.profile('full', ext_sigs=True, kern_weight=6)).map(lambda d: {'doc': d}), check,
+                       max_examples=max(60, n // 4), salt=2, label='multi-character-signifiers')
 
 
 def replay(case):
